@@ -232,8 +232,10 @@ def main():
             extraction_cross_checked=XCHECK[0], disagreements=len(disagrees), property_failures=len(fails), known_finding_cases=sum(len(v) for v in known_hit.values()),
             distribution=dist, samples=samples or [dict(note='no case was run (build failed)')]),
         assumptions=getattr(mod, 'ASSUMPTIONS', []))
-    os.makedirs(os.path.join(VERIF, 'evidence'), exist_ok=True)
-    json.dump(common.strict(ev), open(os.path.join(VERIF, 'evidence', '%s.json' % prop), 'w'), indent=1, default=str)
+    # runs against a patched scratch copy (selftest/with_patch.sh sets VERIF_REPO) must not overwrite the evidence of /repo
+    evdir = os.path.join(VERIF, 'evidence') if os.environ.get('VERIF_REPO', '/repo') == '/repo' else os.path.join(common.WORK, 'evidence_scratch')
+    os.makedirs(evdir, exist_ok=True)
+    json.dump(common.strict(ev), open(os.path.join(evdir, '%s.json' % prop), 'w'), indent=1, default=str)
 
     if os.environ.get('VERIF_DEBUG'):
         hist = {}
